@@ -638,7 +638,9 @@ Proof.
     apply bind_ok in H as (items & E2 & H).
     assert (Hitems : forallb good_value items = true).
     { destruct iv as [| | |b|z|sf t|l|mc cl|i n|g]; try discriminate; try (inversion E2; subst; auto; fail).
-      destruct (u_strictish (c_mode c)); inversion E2; reflexivity. }
+      - destruct (u_strictish (c_mode c)); inversion E2; reflexivity.
+      - (* the characters of a string are unsafe one-character strings *)
+        inversion E2; subst. clear. induction t; cbn; auto. }
     apply bind_ok in H as ([items2 s2] & E3 & H).
     assert (Hi2 : forallb good_value items2 = true /\ good_st s2).
     { destruct flt as [fe|]; [eapply filter_items_good; eauto|inversion E3; subst; auto]. }
